@@ -18,6 +18,9 @@ Fault kinds (see DESIGN.md 2.4):
   SLOW     latency x factor for this op
   CRASH    SimCrash at this op; storage freezes
   FALSE    exists/isdir/isfile answer False although the entry is there
+  STALE    this one listing call (ls/find/glob) returns a stale view: the most recently
+           created entry below the listed directory is missing and the most recently removed
+           one is still there (a single-position fault, not a delay)
 """
 from __future__ import annotations
 
@@ -48,6 +51,7 @@ APPLICABLE = {
     "VIS": CREATE_OPS,
     "DEL": REMOVE_OPS,
     "SLOW": None,
+    "STALE": {"ls", "find"},
     "CRASH": None,
     # the predicate answers False (what the fsspec base class makes of an error in
     # info()); NOT part of the default fault set: a wrong answer is not a failure
@@ -99,6 +103,9 @@ class Store:
         self.fired = {}
         self.ops = []                         # (index, op, relpath) of every fault point
         self.open_writes = {}                 # path -> count
+        self.recent_created = []              # paths created during this run, oldest first
+        self.recent_removed = []              # (path, info) removed during this run
+        self.stale_now = False                # set for the duration of one STALE listing
         self.max_delay_until = 0.0
 
     # -- helpers
@@ -235,7 +242,21 @@ class SimFS(AbstractFileSystem):
                 st.fire("TORN")
                 torn()
                 raise OSError(errno.EIO, f"injected torn write at op {k} {op} {rel}")
+        if kind == "STALE":
+            st.fire("STALE")
+            st.stale_now = True
+            _tls.depth = depth + 1
+            try:
+                return do()
+            finally:
+                _tls.depth = depth
+                st.stale_now = False
         pre_info = None
+        if op in REMOVE_OPS:
+            try:
+                st.recent_removed.append((p, st.local.info(p)))
+            except OSError:
+                pass
         if kind == "DEL":
             try:
                 pre_info = st.local.info(p)
@@ -246,6 +267,11 @@ class SimFS(AbstractFileSystem):
             res = do()
         finally:
             _tls.depth = depth
+        if op in CREATE_OPS:
+            tgt = st.check(self._strip_protocol(path2)) if path2 is not None else p
+            if tgt in st.recent_created:
+                st.recent_created.remove(tgt)
+            st.recent_created.append(tgt)
         if kind == "VIS":
             target = st.check(self._strip_protocol(path2)) if path2 is not None else p
             until = sim.now + (fault[1] or 1.0)
@@ -319,6 +345,17 @@ class SimFS(AbstractFileSystem):
                 raise
             infos = []
         infos = [i for i in infos if not st.is_hidden(i["name"])]
+        if st.stale_now:
+            # one stale view: drop the most recently created entry of this directory, and
+            # show the most recently removed one again
+            here = [c for c in st.recent_created if os.path.dirname(c) == p
+                    and any(i["name"] == c for i in infos)]
+            if here:
+                infos = [i for i in infos if i["name"] != here[-1]]
+            gone = [(q, inf) for q, inf in st.recent_removed if os.path.dirname(q) == p
+                    and not os.path.exists(q)]
+            if gone and not any(i["name"] == gone[-1][0] for i in infos):
+                infos.append(dict(gone[-1][1]))
         names = {i["name"] for i in infos}
         for g in st.ghosts_under(p):
             if g["name"] not in names:
